@@ -13,24 +13,24 @@ import (
 // extReadOnly: methods of out-of-module types that may be called on an object shared between
 // calls (loaded from a field, cached by a once, passed in): they do not modify the receiver.
 var extReadOnly = map[string]string{
-	"(*regexp.Regexp).Match":            "documented safe for concurrent use; does not modify the Regexp",
-	"(*regexp.Regexp).MatchString":      "see Match",
-	"(*regexp.Regexp).String":           "read-only",
-	"(*sync.Pool).Get":                  "synchronised by design; the pool discipline is rule C10.pool/C11.pool",
-	"(*sync.Pool).Put":                  "see Get",
-	"(*sync.Once).Do":                   "synchronised by design; once discipline is rule C11.once",
-	"(*sync.Mutex).Lock":                "lock discipline is rule C11.lock",
-	"(*sync.Mutex).Unlock":              "see Lock",
-	"(*sync.RWMutex).Lock":              "see Mutex",
-	"(*sync.RWMutex).Unlock":            "see Mutex",
-	"(*sync.RWMutex).RLock":             "see Mutex",
-	"(*sync.RWMutex).RUnlock":           "see Mutex",
-	"(*bytes.Buffer).Bytes":             "read-only",
-	"(*bytes.Buffer).Len":               "read-only",
-	"(*bytes.Buffer).String":            "read-only",
-	"(*strings.Builder).String":         "read-only",
-	"(*strings.Builder).Len":            "read-only",
-	"(time.Time).Format":                "value receiver",
+	"(*regexp.Regexp).Match":       "documented safe for concurrent use; does not modify the Regexp",
+	"(*regexp.Regexp).MatchString": "see Match",
+	"(*regexp.Regexp).String":      "read-only",
+	"(*sync.Pool).Get":             "synchronised by design; the pool discipline is rule C10.pool/C11.pool",
+	"(*sync.Pool).Put":             "see Get",
+	"(*sync.Once).Do":              "synchronised by design; once discipline is rule C11.once",
+	"(*sync.Mutex).Lock":           "lock discipline is rule C11.lock",
+	"(*sync.Mutex).Unlock":         "see Lock",
+	"(*sync.RWMutex).Lock":         "see Mutex",
+	"(*sync.RWMutex).Unlock":       "see Mutex",
+	"(*sync.RWMutex).RLock":        "see Mutex",
+	"(*sync.RWMutex).RUnlock":      "see Mutex",
+	"(*bytes.Buffer).Bytes":        "read-only",
+	"(*bytes.Buffer).Len":          "read-only",
+	"(*bytes.Buffer).String":       "read-only",
+	"(*strings.Builder).String":    "read-only",
+	"(*strings.Builder).Len":       "read-only",
+	"(time.Time).Format":           "value receiver",
 }
 
 // extSharedTable: calls that mutate an out-of-module object which is NOT created in the calling function, accepted with a reason.
